@@ -150,7 +150,7 @@ theorem mwSel_budget (w : Walk) (rec : FragDef → MSt → MSt) (hr : Frugal rec
       omega
     · omega
   | .inline c _ sub _, on, st => by
-    have := mwSels_budget w rec hr sub c st
+    have := mwSels_budget w rec hr sub (inlineOn c on) st
     simp only [mwSel, selSize]
     omega
 theorem mwSels_budget (w : Walk) (rec : FragDef → MSt → MSt) (hr : Frugal rec) :
